@@ -157,6 +157,9 @@ Table(i) ==
       walls |-> {SIdx(i, c) : c \in {d \in Cells(i) : IsWall(i, d)}},
       abscells |-> {SIdx(i, c) : c \in {d \in Cells(i) : IsAbsCell(i, d)}},
       valued |-> IF Valued(i) THEN 1 ELSE 0,
+      \* (R) ownership: the queries whose result is a new object on every call, so that a caller editing a
+      \* returned container in place does not edit the model (implementation-shaped: DRIFT level)
+      fresh |-> {"actions", "initial_state_dist", "next_state_dist"},
       \* SPN * V per state index (terminal state: 0), NOVAL where the terminal state cannot be reached
       u |-> IF Valued(i) THEN [k \in 1..Len(ss) |-> IF k = 1 THEN 0 ELSE gv[ss[k]]] ELSE <<>>]
 EmitCell(i) == CHOOSE c \in StartCells(i) : \A d \in StartCells(i) : SIdx(i, c) <= SIdx(i, d)
